@@ -1,2 +1,6 @@
 import PyndlProps.C01
 import PyndlProps.C13
+import PyndlProps.C02
+import PyndlProps.C06
+import PyndlProps.C04
+import PyndlProps.C09
